@@ -41,7 +41,9 @@ Definition pop_job (dq : list (list (nat * nat))) (j : nat) : list (list (nat * 
 Definition rec_entry (I : instance) (fs : list fname) (d : dstate) (tag : Z) (x : option sop) : val :=
   VL [VI tag; vopt enc_sop x; enc_dstate d; VI (makespan_code I (sched d));
       vlist enc_key (scheduled_ops I d);
-      VI (min_start_time I d (available I d fs))].
+      VI (min_start_time I d (available I d fs));
+      vlist enc_key (unscheduled_ops I d);
+      vlist enc_key (available I d fs)].
 
 Definition o_update (I : instance) (fs : list fname) (d : dstate) (x : sop) (o : obs) : obs :=
   match o with
